@@ -2,6 +2,6 @@ SPECIFICATION Spec
 CONSTANTS
  Hs = {h1, h2}
  Threads = 1
- Dev = {}
+ Dev = {"held"}
 INVARIANTS Reach_HandshakeQueued
 CHECK_DEADLOCK FALSE
